@@ -30,7 +30,8 @@ PROPERTY = {
     ],
 }
 
-BACKENDS = ["default", "torch", "jax", "fortran"]
+UNKNOWN_BACKENDS = ["pytorch", "Fortran", "tensorflow"]
+BACKENDS = ["default", "torch", "jax", "fortran"] + UNKNOWN_BACKENDS
 SOLVERS = ["euler", "heun", "scipy", "diffrax", "bogus_solver"]
 DELAYS = ["none", "discrete", "spread", "past", "discrete_then_spread"]
 
@@ -93,6 +94,22 @@ class MatrixArm(Arm):
     def run(self, case, ctx):
         res = CaseResult()
         b, s, vec, d, sparse = case["backend"], case["solver"], case["vectorize"], case["delay"], case["sparse"]
+        if b in UNKNOWN_BACKENDS:
+            # a backend name that does not exist is not a request for the NumPy backend
+            res.labels = [f"backend:{b}", "must_raise"]
+            if s != "euler" or d != "none" or sparse:
+                res.rejected = "unknown backend names are tried once per vectorize setting"
+                return res
+            res.nontrivial = True
+            try:
+                df = run_circuit(matrix_spec("none"), 0.05, 0.01, {"a": "p0/op0/x"}, solver="euler", backend=b, vectorize=vec)
+            except HarnessError:
+                raise
+            except Exception:
+                return res
+            res.violate("no-raise:unknown-backend", f"run(backend={b!r}) returned a {type(df).__name__} although no such "
+                                                    f"backend exists")
+            return res
         cls = supported(b)
         if cls is None:
             res.rejected = "backend not importable"
